@@ -288,3 +288,54 @@ package treebidimap
 //@ func New
 //@   modifies nothing
 //@   ensures [C10 C15 C17] fresh(result) && Inv(result) && result.forwardMap.size == 0
+
+//@ -- String: starts with the container's name; reads only (C15, C18)
+//@ func Map.String
+//@   requires Inv(m)
+//@   modifies nothing
+//@   ensures [C15 C17 C18] hasPrefix(result, "TreeBidiMap")
+//@   loop 1:
+//@     invariant ItInv(it) && it.iterator.tree == m.forwardMap && fresh(it) && fresh(it.iterator) && hasPrefix(str, "TreeBidiMap")
+//@     decreases m.forwardMap.size - Cur(it)
+
+// ---- JSON (C11, C12): ToJSON is the forward tree's document; FromJSON keeps the map sound, is atomic on error and
+// ---- empties the map on null. NOT claimed: that the loaded pairs are exactly the document's (the keyed form of that
+// ---- statement needs "stored key" facts that redblacktree.Remove's contract does not export).
+
+//@ func Map.ToJSON
+//@   requires Inv(m)
+//@   modifies nothing
+//@   ensures [C11 C17 C18] result1 == nil && fresh(arr(result0)) && jobj_kind(result0, argof(m.forwardMap.Comparator, 0), m.forwardMap.Root.Value) == 3 && jobj_card(result0, argof(m.forwardMap.Comparator, 0), m.forwardMap.Root.Value) == m.forwardMap.size
+//@   ensures [C11] content: forall i :: 0 <= i && i < m.forwardMap.size ==> jobj_has(result0, FK(m, i), m.forwardMap.Root.Value) && jobj_val(result0, FK(m, i), m.forwardMap.Root.Value) == FV(m, i)
+//@   ensures [C11] only: forall k like argof(m.forwardMap.Comparator, 0) :: jobj_has(result0, k, m.forwardMap.Root.Value) ==> Fwd(m, k) && FK(m, FRank(m, k)) == k
+
+//@ func Map.MarshalJSON
+//@   requires Inv(m)
+//@   modifies nothing
+//@   ensures [C11 C17 C18] result1 == nil && fresh(arr(result0)) && jobj_kind(result0, argof(m.forwardMap.Comparator, 0), m.forwardMap.Root.Value) == 3 && jobj_card(result0, argof(m.forwardMap.Comparator, 0), m.forwardMap.Root.Value) == m.forwardMap.size
+//@   ensures [C11] content: forall i :: 0 <= i && i < m.forwardMap.size ==> jobj_has(result0, FK(m, i), m.forwardMap.Root.Value) && jobj_val(result0, FK(m, i), m.forwardMap.Root.Value) == FV(m, i)
+//@   ensures [C11] only: forall k like argof(m.forwardMap.Comparator, 0) :: jobj_has(result0, k, m.forwardMap.Root.Value) ==> Fwd(m, k) && FK(m, FRank(m, k)) == k
+
+//@ func Map.FromJSON
+//@   requires Inv(m)
+//@   modifies m.forwardMap.Root, m.forwardMap.size, m.forwardMap.n, m.forwardMap.nodes, m.forwardMap.rank
+//@   modifies each x like m.forwardMap.Root where x.tr == m.forwardMap : x.Left, x.Right, x.Parent, x.a, x.b, x.color, x.Key, x.Value, x.pos, x.tr
+//@   modifies m.inverseMap.Root, m.inverseMap.size, m.inverseMap.n, m.inverseMap.nodes, m.inverseMap.rank
+//@   modifies each x like m.inverseMap.Root where x.tr == m.inverseMap : x.Left, x.Right, x.Parent, x.a, x.b, x.color, x.Key, x.Value, x.pos, x.tr
+//@   ensures [C10 C12 C17] Inv(m) && Config(m) && (result == nil <==> jobj_kind(data, argof(m.forwardMap.Comparator, 0), m.forwardMap.Root.Value) >= 2)
+//@   ensures [C12] atomic: result != nil ==> m.forwardMap.size == old(m.forwardMap.size) && (forall i :: 0 <= i && i < m.forwardMap.size ==> FK(m, i) == old(FK(m, i)) && FV(m, i) == old(FV(m, i)))
+//@   ensures [C12] null: jobj_kind(data, argof(m.forwardMap.Comparator, 0), m.forwardMap.Root.Value) == 2 ==> m.forwardMap.size == 0
+//@   loop 1:
+//@     invariant Inv(m) && Config(m) && err == nil && jobj_kind(data, argof(m.forwardMap.Comparator, 0), m.forwardMap.Root.Value) >= 2
+//@     invariant jobj_kind(data, argof(m.forwardMap.Comparator, 0), m.forwardMap.Root.Value) == 2 ==> elements == nil && m.forwardMap.size == 0
+//@     decreases len(elements) - nvisited1
+
+//@ func Map.UnmarshalJSON
+//@   requires Inv(m)
+//@   modifies m.forwardMap.Root, m.forwardMap.size, m.forwardMap.n, m.forwardMap.nodes, m.forwardMap.rank
+//@   modifies each x like m.forwardMap.Root where x.tr == m.forwardMap : x.Left, x.Right, x.Parent, x.a, x.b, x.color, x.Key, x.Value, x.pos, x.tr
+//@   modifies m.inverseMap.Root, m.inverseMap.size, m.inverseMap.n, m.inverseMap.nodes, m.inverseMap.rank
+//@   modifies each x like m.inverseMap.Root where x.tr == m.inverseMap : x.Left, x.Right, x.Parent, x.a, x.b, x.color, x.Key, x.Value, x.pos, x.tr
+//@   ensures [C10 C12 C17] Inv(m) && Config(m) && (result == nil <==> jobj_kind(bytes, argof(m.forwardMap.Comparator, 0), m.forwardMap.Root.Value) >= 2)
+//@   ensures [C12] atomic: result != nil ==> m.forwardMap.size == old(m.forwardMap.size) && (forall i :: 0 <= i && i < m.forwardMap.size ==> FK(m, i) == old(FK(m, i)) && FV(m, i) == old(FV(m, i)))
+//@   ensures [C12] null: jobj_kind(bytes, argof(m.forwardMap.Comparator, 0), m.forwardMap.Root.Value) == 2 ==> m.forwardMap.size == 0
